@@ -71,9 +71,10 @@ class JaqalLexer(Lexer):
 
     # Comments
     ignore_comment = r"//[^\n]*"
-    # We have to get fancy since the regular expression . does not
-    # match a new line
-    ignore_multiline_comment = r"/\*(\n|[^\n])*\*/"
+    # A comment ends at the first */ (comments do not nest): anything but
+    # a star, or stars followed by neither a star nor a slash, any number of
+    # times, then the closing stars and slash.
+    ignore_multiline_comment = r"/\*([^*]|\*+[^*/])*\*+/"
 
     def ignore_comment(self, token):
         self.lineno += token.value.count("\n")
